@@ -83,4 +83,17 @@ def generate(rng, tier, focus):
         s0 = scen.script([rng.choice(ITEMS) for _ in range(rng.randrange(0, 5))], rng.choice(["c", fresh_err(), "s"]))
         mid = scen.rand_chain(rng, op("materialize", [], ["cold", 0]), rng.choice([0, 0, 1]), names=["tap", "map_to_any", "skip", "take"])
         cases.append((scn(srcs=[src([s0], False)], handles=1, script_=[sub(0, op("dematerialize", [], mid))]), {"k": "mat-demat"}))
+    # (f) the retry budget is per subscription: one retry Observable subscribed twice, each against its solitary run
+    import C14
+    gid = [100000]
+
+    def group():
+        gid[0] += 1
+        return gid[0]
+    cases += C14.retry_twice_cases(rng, 600 if thorough else 120, group)
     return cases
+
+
+def judge_impl(cases, obs):
+    import C14
+    return C14.judge_impl(cases, obs)
